@@ -5,7 +5,8 @@ One `HasTraits` object, standard value traits (`TraitKind.trait`:
 `getattr_trait` / `setattr_trait`).  The state is what *holds references*:
 the slots of `obj.__dict__` (one reference to the key object, one to the value)
 plus `stray`, the reference-count changes the code performs that correspond to
-no slot (a correct core never has any).  Transcribed, statement by statement:
+no slot (a correct core never has any; since f934ab1 no modelled path writes it,
+the field stays so that a regression has somewhere to show).  Transcribed, statement by statement:
 
   `setattr_trait`      ctraits.c:2373-2553   (assignment and deletion branch)
   `getattr_trait`      ctraits.c:1953-2012
@@ -106,8 +107,6 @@ def strayOf (s : St) (id : Id) : Int :=
 /-- What `sys.getrefcount(id) - baseline(id)` must read. -/
 def refs (s : St) (id : Id) : Int := (held s id : Int) + strayOf s id
 
-def bump (s : St) (id : Id) (k : Int) : St := { s with stray := (id, k) :: s.stray }
-
 /-! ## The tail shared by every path: `post_setattr`, then the notifiers
 
 Once the value is in the dict neither call changes what the dict holds; only
@@ -153,9 +152,9 @@ def changedOf (c : TraitCfg) (old : Option Id) (value : Id) : Bool :=
 def setFinish (E : Env) (c : TraitCfg) (s : St) (name : String) (key v value : Id)
     (old : Option Id) (d p : Nat) : Option Exc × St :=
   if !E.hashOk d then
-    -- :2510-2519   Py_XDECREF(old_value); Py_DECREF(name); Py_DECREF(value); return -1;
-    -- `name` is a borrowed reference here: this DECREF has no matching INCREF.
-    (some hashExc, bump s key (-1))
+    -- PyDict_SetItem failed:  Py_XDECREF(old_value); Py_DECREF(value); return -1;
+    -- (the `Py_DECREF(name)` that used to stand here - `name` is borrowed - was removed by f934ab1)
+    (some hashExc, s)
   else
     -- :2523-2537
     (if changedOf c old value then
